@@ -242,7 +242,12 @@ def make_objective(b: Built, o, p):
         obj = ps.ObjectiveMinimizeResourceCost(list_of_resources=[resource(b, r) for r in o["ress"]])
     elif cls in ("ObjectiveMinimizeFlowtime", "ObjectivePriorities", "ObjectiveTasksStartEarliest",
                  "ObjectiveTasksStartLatest", "ObjectiveMinimizeGreatestStartTime"):
-        obj = getattr(ps, cls)()
+        sub = p["inds"][o["ind"] - 1].get("tasks") if o.get("ind") else None
+        if sub and len(sub) < len(p["tasks"]) and cls in ("ObjectiveMinimizeFlowtime", "ObjectiveTasksStartLatest",
+                                                            "ObjectiveMinimizeGreatestStartTime"):
+            obj = getattr(ps, cls)(list_of_tasks=[b.tasks[i - 1] for i in sub])   # the objective over a subset of the tasks
+        else:
+            obj = getattr(ps, cls)()
     elif cls in ("ObjectiveMaximizeMaxBufferLevel", "ObjectiveMinimizeMaxBufferLevel"):
         obj = getattr(ps, cls)(buffer=b.buffers[o["buffer"] - 1])
     else:
